@@ -122,20 +122,40 @@ def gen_cases(tier, seed):
             mk['version'] = rng.choice([1, 2, 5, 7, 10])
             if mk['version'] <= 2:
                 content = content[:7]
-        if rng.random() < 0.2:
+        r = rng.random()
+        if r < 0.2:
             mk = {'micro': True}
             content = content[:4] if not content.isdigit() else content[:10]
+        elif r < 0.36:
+            # Micro QR through the other spellings: a Micro version name in either letter case with or without
+            # --micro (the version alone has to allow Micro symbols), an explicit error level with --micro
+            content = content[:3] if not content.isdigit() else content[:5]
+            mk = {}
+            if rng.random() < 0.5:
+                mk['micro'] = True
+            lv = rng.choice([None, 'L', 'M', 'l', 'm', 'L'])
+            if not mk or rng.random() < 0.6:
+                lower = content != content.upper()     # lower-case letters: byte mode, M3 and M4 only
+                mk['version'] = rng.choice(['M3', 'M4', 'm3', 'm4'] if lower else
+                                           ['M2', 'M3', 'M4', 'm2', 'm3', 'm4'] if lv or not content.isdigit() else
+                                           ['M1', 'm1', 'M2', 'm3', 'M4', 'm4'])
+            if lv:
+                mk['error'] = lv
+        elif r < 0.42:
+            mk['error'] = rng.choice(['l', 'm', 'q', 'h'])
         if 'error' not in mk and rng.random() < 0.15:
             mk['error_dash'] = True       # CLI spelling of "no error level given"
-        if not mk.get('micro') and rng.random() < 0.15:
+        if mk.get('micro') is False and rng.random() < 0.15:
             mk['explicit_no_micro'] = True
         # symbol options that the command line has to hand over as well (every mask value incl. 0)
         if rng.random() < 0.5:
-            mk['mask'] = rng.randint(0, 3 if mk.get('micro') else 7)
+            mk['mask'] = rng.randint(0, 3 if mk.get('micro') or str(mk.get('version', '')).upper().startswith('M') else 7)
         if rng.random() < 0.2:
             mk['boost_error'] = False
-        if rng.random() < 0.15 and not mk.get('micro'):
-            mk['mode'] = 'byte'
+        if rng.random() < 0.15 and not mk.get('micro') and not str(mk.get('version', '')).upper().startswith('M'):
+            mk['mode'] = rng.choice(['byte', 'BYTE', 'Byte'])
+        elif rng.random() < 0.1 and content.isdigit():
+            mk['mode'] = rng.choice(['numeric', 'NUMERIC', 'Numeric', 'alphanumeric', 'ALPHANUMERIC'])
         if rng.random() < 0.15:
             mk['encoding'] = rng.choice(['utf-8', 'latin1'])
         cases.append({'kind': 'routes', 'out': kind, 'content': content, 'make': mk, 'kw': kw,
